@@ -200,7 +200,32 @@ def _engine(bodies):
         return "(S (%s %s))" % (name, " ".join(args))
     str_fn.wants_env = True
 
+    def split_new(ex, v, env):
+        """`s.split(p)`: a lazy iterator object; its state (what is left, exhausted or not) lives per path in the environment"""
+        s_, p_ = _S(_deep(ex, env, v[0])), _S(_deep(ex, env, v[1]))
+        ex.nsplit = getattr(ex, "nsplit", 0) + 1
+        smt.fun("SPLIT", 1)
+        ident = ex._konst("int_%d" % (600 + ex.nsplit))
+        env["__split_%s" % ident] = (s_, p_, False)
+        return "(SPLIT %s)" % ident
+    split_new.wants_env = True
+
+    def split_next(ex, v, env):
+        it = _deep(ex, env, v[0])
+        if not it.startswith("(SPLIT "):
+            raise Inconclusive("next of %s" % it[:60])
+        ident = split_sexpr_args(it)[0]
+        r, p_, done = env["__split_%s" % ident]
+        if done:
+            return "C_None"
+        idx = "(str.indexof %s %s 0)" % (r, p_)
+        rest = "(str.substr %s (+ %s (str.len %s)) (str.len %s))" % (r, idx, p_, r)
+        return [("(>= %s 0)" % idx, "(C_Some (S (str.substr %s 0 %s)))" % (r, idx), {"__split_%s" % ident: (rest, p_, False)}),
+                ("(< %s 0)" % idx, "(C_Some (S %s))" % r, {"__split_%s" % ident: (r, p_, True)})]
+    split_next.wants_env = True
     models = {
+        r"^core::str::<impl str>::split::<char>$": split_new,
+        r"^<std::str::Split<'_, char> as Iterator>::next$": split_next,
         r"^core::str::<impl str>::split_once::<char>$": split_once,
         r"^<str as PartialEq>::eq$": str_eq,
         r"^<str as ToOwned>::to_owned$|^<bytes::Bytes as From<String>>::from$|^<bytes::Bytes as From<Vec<u8>>>::from$|^<bytes::Bytes as Deref>::deref$"
